@@ -362,6 +362,12 @@ class C12:
                 a, b = rng.pick(gen.TRAILER_FIELDS + [(x, y) for x, y in hs[:2]])
                 trs.append((gen.randcase(rng, a) if rng.chance(1, 3) else a, b))
             payload = gen.rand_bytes(rng, rng.below(30), b"abc\r\n0")
+            if ts and ts[-1].lower() in (b"gzip", b"x-gzip", b"deflate", b"x-deflate") and rng.chance(1, 2):
+                # the payload really is a stream of the coding listed in front of `chunked`: the parser de-chunks and nothing
+                # more — "every other listed coding remains" (tenth round: transfer codings undone when they decode)
+                import gzip as _gz, zlib as _zl
+                inner = gen.rand_bytes(rng, rng.below(40), b"abc ")
+                payload = _gz.compress(inner) if b"gzip" in ts[-1].lower() else rng.pick([_zl.compress(inner), _zl.compress(inner)[2:-4]])
             body = b""
             pos = 0
             while pos < len(payload):
